@@ -137,6 +137,14 @@ func (q Req) Build() (*http.Request, context.CancelFunc) {
 			// the context is cancelled at the moment the reader fails
 			fr2 := &cancelOnFail{fr, c}
 			r.Body = fr2
+		case "cancel-only":
+			// the request context is cancelled once FailAt bytes were delivered, but the body
+			// itself keeps reading without error up to EOF
+			ctx, c := context.WithCancel(r.Context())
+			cancel = c
+			r = r.WithContext(ctx)
+			fr.failAt = len(fr.data) + 1
+			r.Body = &cancelAt{faultReader: fr, at: q.Fault.FailAt, cancel: c}
 		default:
 			fr.err = io.ErrUnexpectedEOF
 			r.Body = fr
@@ -154,6 +162,23 @@ type cancelOnFail struct {
 func (c *cancelOnFail) Read(p []byte) (int, error) {
 	n, err := c.faultReader.Read(p)
 	if err != nil && err != io.EOF {
+		c.cancel()
+	}
+	return n, err
+}
+
+type cancelAt struct {
+	*faultReader
+	at     int
+	cancel context.CancelFunc
+}
+
+func (c *cancelAt) Read(p []byte) (int, error) {
+	if c.faultReader.pos >= c.at {
+		c.cancel()
+	}
+	n, err := c.faultReader.Read(p)
+	if c.faultReader.pos >= c.at {
 		c.cancel()
 	}
 	return n, err
